@@ -90,6 +90,18 @@ Theorem pool_job_exactly_once_while_running :
 Proof. exact pool_job_exactly_once_while_running_lemma. Qed.
 Print Assumptions pool_job_exactly_once_while_running.
 
+(* Progress half of "exactly once while the pool keeps running": a pending job is never stuck for a reason
+   inside the pool - some pipeline step (splitter check / take / hand-off, a job beginning or ending) is
+   enabled unless every worker is occupied by a job that blocks until the cancellation.  That an enabled
+   step is eventually taken is scheduler fairness (trusted, see LEVEL_NOTE). *)
+Theorem pool_pending_job_can_progress :
+  forall (cf : Pool.conf) (oc : nat -> outcome) (s : Pool.st), Pool.reach cf oc s ->
+    Pool.pc s = Pool.PRunning -> Pool.cancelled s = false -> Pool.icancel s = false -> pending s <> [] ->
+    (exists e s', pipeline_step e /\ Pool.step cf oc s e = Some s') \/
+    (Pool.idle s = 0 /\ Pool.recv s = [] /\ forall j, In j (Pool.running s) -> blocking (oc j) = true).
+Proof. exact pool_pending_progress_lemma. Qed.
+Print Assumptions pool_pending_job_can_progress.
+
 (* Every failure (error or panic) of a job that ran is in the error returned by Wait or was passed to the
    handler, and nothing else is reported. *)
 Theorem pool_job_errors_surfaced :
